@@ -139,6 +139,24 @@ func AnyPoint(rng *vkit.Rng) s2.Point {
 	return s2.Point{Vector: r3.Vector{X: AnyFloat(rng), Y: AnyFloat(rng), Z: AnyFloat(rng)}}
 }
 
+// FiniteFloat: any bit pattern that is not NaN or infinite (-0, subnormals, huge values included).
+func FiniteFloat(rng *vkit.Rng) float64 {
+	for {
+		f := AnyFloat(rng)
+		if !math.IsNaN(f) && !math.IsInf(f, 0) {
+			return f
+		}
+	}
+}
+
+// FinitePoint: a vertex the loop/polyline decoders accept (they reject NaN and infinite coordinates).
+func FinitePoint(rng *vkit.Rng) s2.Point {
+	if rng.Intn(3) == 0 {
+		return UnitPoint(rng)
+	}
+	return s2.Point{Vector: r3.Vector{X: FiniteFloat(rng), Y: FiniteFloat(rng), Z: FiniteFloat(rng)}}
+}
+
 func AnyRect(rng *vkit.Rng) s2.Rect {
 	switch rng.Intn(4) {
 	case 0:
@@ -306,9 +324,9 @@ func GenLoop(rng *vkit.Rng) (*s2.Loop, string) {
 		n := 1 + rng.Intn(6)
 		vs := make([]s2.Point, n)
 		for i := range vs {
-			vs[i] = AnyPoint(rng)
+			vs[i] = FinitePoint(rng)
 		}
-		return RawLoop(rng, vs), "loop:arbitrary-bit-patterns"
+		return RawLoop(rng, vs), "loop:arbitrary-finite-bit-patterns"
 	}
 	mode := VertexMode(rng.Intn(int(numVertexModes)))
 	n := []int{3, 4, 5, 8, 17, 63, 64, 65}[rng.Intn(8)]
